@@ -200,16 +200,47 @@ def h_misc(ctx, what):
     ctx.check('raiseEventNoErrors still rejects undeclared types', raises(lambda: src.raiseEventNoErrors(w.E3())))
     ctx.check('declared type accepted', not raises(lambda: src.raiseEvent(w.E2())))
   elif what == 'weak':
+    # the subscription form, the number of owners and which of them dies are solver-chosen
     calls = []
     class Owner:
-      def _handle_E1(self, e): calls.append(1)
-    o = Owner()
-    src.addListener(w.E1, o._handle_E1, weak=True)
+      def __init__(self, tag): self.tag = tag
+      def _handle_E1(self, e): calls.append(self.tag)
+      def _handle_E2(self, e): calls.append(self.tag + '/E2')
+    def subscribe(o, form):
+      if form == 0: return src.addListener(w.E1, o._handle_E1, weak=True)
+      if form == 1: return src.addListenerByName('E1', o._handle_E1, weak=True)
+      if form == 2: return src.add_listener(o._handle_E1, event_name='E1', weak=True)
+      if form == 3: return src.add_listener(o._handle_E1, weak=True)                       # event inferred from the method name
+      if form == 4: return src.add_listener(o._handle_E1, event_type=w.E1, weak=True)
+      return src.addListeners(o, weak=True)                                                # binds _handle_E1 and _handle_E2
+    formA = int(ctx.int('formA', 0, 5)); formB = int(ctx.int('formB', 0, 5))
+    a = Owner('a'); b = Owner('b')
+    strong = []
+    src.addListener(w.E1, lambda e: strong.append(1))
+    ida = subscribe(a, formA); idb = subscribe(b, formB)
+    n0 = src._eventMixin_get_listener_count()
+    ctx.check('listener count after subscribing', n0 == 1 + (2 if formA == 5 else 1) + (2 if formB == 5 else 1))
     src.raiseEvent(w.E1)
-    ctx.check('weak handler invoked while owner lives', calls == [1])
-    del o; gc.collect()
-    src.raiseEvent(w.E1)
-    ctx.check('weak handler gone with its owner', calls == [1] and src._eventMixin_get_listener_count() == 0)
+    ctx.check('weak handlers invoked while their owners live, in subscription order', calls == ['a', 'b'] and strong == [1])
+    kill_a = bool(ctx.bool('a_dies')); explicit_b = bool(ctx.bool('b_removed_by_id'))
+    gone = 0
+    if kill_a:
+      gone += 2 if formA == 5 else 1
+      del a; gc.collect()
+    if explicit_b:
+      gone += 2 if formB == 5 else 1
+      ctx.check('explicit removal of a weak subscription by its returned id', (src.removeListeners(idb) if formB == 5 else src.removeListener(idb)) is True)
+    ctx.check('a weak handler disappears with its owner (listener count)', src._eventMixin_get_listener_count() == n0 - gone)
+    del calls[:]
+    ok = not raises(lambda: src.raiseEvent(w.E1))
+    ctx.check('raising after the owner is gone does not fail', ok)
+    ctx.check('only the surviving handlers are invoked', calls == ([] if kill_a else ['a']) + ([] if explicit_b else ['b']) and strong == [1, 1])
+    ctx.check('raiseEventNoErrors after the owner is gone does not fail', not raises(lambda: src.raiseEventNoErrors(w.E1)))
+    if formB == 5 and not explicit_b:
+      del calls[:]; src.raiseEvent(w.E2)
+      ctx.check('other bound events of a surviving owner still delivered', calls == (['b/E2'] if True else []) or (formA == 5 and not kill_a and calls == ['a/E2', 'b/E2']))
+    del b; gc.collect()
+    ctx.check('all weak handlers gone at the end', src._eventMixin_get_listener_count() == 1 + (0 if kill_a else (2 if formA == 5 else 1)))
   elif what == 'autobind':
     calls = []
     class Sink:
